@@ -78,7 +78,7 @@ HW(hs) == { [h |-> h, w |-> w] : h \in hs, w \in {"block", "solver"} } \cup { [h
 (* quick: the rejected forms are not crossed with every initial-condition choice *)
 KeepQuick(c) == /\ ExoRejected(c) => (c.ics = << >> \/ (Len(c.ics) > 1 /\ c.icform = "float"))
                 /\ c.icform = "undef" => (c.exo.form = "list" /\ Len(c.exo.vals) = c.horizon + 1)
-                /\ ~c.reduce => (c.icform # "int" /\ c.exo.form \in {"list", "scalar", "strexpr", "undef"})
+                /\ ~c.reduce => c.icform # "int"
 
 InitQuick ==
     \E b \in {"B1", "B2", "B3"}, hw \in HW(0..3), x \in ExoQuick, r \in BOOLEAN :
